@@ -248,6 +248,9 @@ func genCase(t *rapid.T) Case {
 		verb := strings.ToUpper(verbs[ti])
 		if verb == "*" || rapid.IntRange(0, 9).Draw(t, "otherverb") == 0 {
 			verb = rapid.SampledFrom(reqVerbs).Draw(t, "rv")
+		} else if rapid.IntRange(0, 11).Draw(t, "verbcase") == 0 {
+			// the binding's verb in another case: a different method token
+			verb = rapid.SampledFrom([]string{strings.ToLower(verb), verb[:1] + strings.ToLower(verb[1:]), strings.ToLower(verb[:1]) + verb[1:]}).Draw(t, "verbspelling")
 		}
 		kind := "inst"
 		nm := rapid.SampledFrom([]int{0, 0, 0, 1, 1, 1, 1, 2}).Draw(t, "nmut")
